@@ -4,7 +4,7 @@
    Statements are for EVERY table set, name tables, validator function, float oracle and byte string. *)
 From AV Require Import Base.Bytes Base.Outcome Hash.HashModel Spec.SpecOps Spec.SpecReal Spec.Versions Xml.Lexer Xml.Parser Xml.Funnel Xml.FunnelParser
   Xml.StrictValidDef Xml.StrictValid Xml.ParserExamples
-  Xml.Serializer Xml.RoundTripFile Xml.RoundTripCanon Xml.RoundTripCanonFinal Xml.StrictValidNoHoles Xml.StrictValidHoles.
+  Xml.Serializer Xml.RoundTripFile Xml.RoundTripCanon Xml.RoundTripCanonFinal Xml.StrictValidNoHoles Xml.StrictValidHoles Xml.StrictValidEntities.
 From AV Require Import Spec.SpecTypes Xml.TablesOk.
 From AV Require Import Hash.HashRealElement Hash.HashRealAttr Hash.HashRealEnum.
 Open Scope list_scope.
@@ -40,7 +40,7 @@ Proof. exact load_agree. Qed.
    PARTIAL, exactly: (a) the ROOT element's attributes are validated against the placeholder version Autosar_4_0_1
    (the file version is read from them), so attrs_valid is stated for v401 there; (b) for plain (CString) values StrictValid
    states max_length of the unescaped text; entity syntax is a property of the bytes before unescaping and is not in
-   StrictValid (the signed references "&#x+41;" / "&#+65;" found here are repaired: fix 68ba067, Examples fixed_entity_sign_hex / _dec);
+   StrictValid - it is stated separately, exactly: C08_entities (the signed references "&#x+41;" / "&#+65;" found here are repaired: fix 68ba067, Examples fixed_entity_sign_hex / _dec);
    (c) StrictValid does not say that an element which must carry a value has a text item — that fails, see
    C08_value_required_refuted (known finding empty-value-never-checked); at most one is C08_single_value. *)
 Theorem C08_accepted_is_valid_partial :
@@ -197,3 +197,38 @@ Theorem C08_empty_value_sweep_meaning :
   forall (fp : list N -> option N) (i : N) (cs : cdspec), sweep fp = true -> In (i, cs) chars_types ->
   (empty_rejectedb tab_enum check_real fp cs = true <-> kind_of cs <> 2%N).
 Proof. exact sweep_meaning. Qed.
+
+(* ---------- exclusion (b), as a theorem: entity syntax (Xml/StrictValidEntities.v) ----------
+   Unesc text u : the grammar of an accepted text and what it denotes -
+     bytes other than '&' stand for themselves; the five named references &lt; &gt; &amp; &apos; &quot; for the byte they name;
+     &#x<d>; and &#<d>; (d up to the first ';', no '+' first, for the decimal form no 'x' first) for the UTF-8 encoding of
+     v, where u32::from_str_radix(d, 16 / 10) = v (Base/Radix.v) and v is a char. *)
+(* [U] strict unescaping returns u for text exactly when Unesc text u; the parser state is untouched *)
+Theorem C08_entities :
+  forall (text : list N) (st : pstate) (u : list N),
+  (exists st', unescape_string true text st = Val (Ret u st')) <-> Unesc text u.
+Proof. exact unescape_strict_iff. Qed.
+
+Theorem C08_entities_state :
+  forall (text : list N) (st : pstate) (u : list N) (st' : pstate),
+  unescape_string true text st = Val (Ret u st') -> st' = st /\ Unesc text u.
+Proof. exact unescape_sound. Qed.
+
+(* [U] and a text of the grammar is accepted in both modes, silently *)
+Theorem C08_entities_complete :
+  forall (strict : bool) (text u : list N) (st : pstate), Unesc text u -> unescape_string strict text st = Val (Ret u st).
+Proof. exact unesc_complete. Qed.
+
+(* [U] at the value: what strict loading stores for a plain String is the denotation of the (trimmed, unless
+   preserve_whitespace) text of the file *)
+Theorem C08_string_value_entities :
+  forall (tab_en : nametab) (check_fn : N -> list N -> res bool) (float_parse : list N -> option N)
+         (input : list N) (preserve : bool) (maxlen : option N) (st : pstate) (v : cdata) (st' : pstate),
+  parse_character_data true tab_en check_fn float_parse input (CString preserve maxlen) st = Val (Ret v st') ->
+  exists trimmed u, trim_byte_string input = Val trimmed /\ v = DString u /\ Unesc (if preserve then input else trimmed) u.
+Proof. exact pcd_string_entities. Qed.
+
+(* non-vacuity: every kind of reference occurs in an accepted text; a signed reference and a bare '&' are outside *)
+Theorem C08_entities_examples :
+  Unesc (BS "a&#x41;&lt;&#66;&amp;") (BS "aA<B&") /\ (forall u, ~ Unesc (BS "&#x+41;") u) /\ (forall u, ~ Unesc (BS "a & b") u).
+Proof. exact (conj unesc_ex (conj unesc_signed_out unesc_bare_amp_out)). Qed.
